@@ -173,6 +173,14 @@ func (ei *resourceInformer) getCachedObjects() []kemtypes.ObjectAndFilterResult 
 	return res
 }
 
+// resetCachedObjects drops objects loaded by loadExistedObjects.
+func (ei *resourceInformer) resetCachedObjects() {
+	ei.cacheLock.Lock()
+	ei.cachedObjects = make(map[string]*kemtypes.ObjectAndFilterResult)
+	ei.cachedObjectsInfo.Count = 0
+	ei.cacheLock.Unlock()
+}
+
 func (ei *resourceInformer) enableKubeEventCb() {
 	ei.eventBufLock.Lock()
 	defer ei.eventBufLock.Unlock()
